@@ -85,6 +85,7 @@ type llInnerConn struct {
 
 func (c *llInnerConn) Read(p []byte) (int, error)  { return 0, net.ErrClosed }
 func (c *llInnerConn) Write(p []byte) (int, error) { return 0, net.ErrClosed }
+
 // Close: the first call does the work (slowly, for a slow connection: it parks
 // until the scheduler lets it complete); calls made meanwhile or later return
 // net.ErrClosed at once, like a real connection. The first return of any call
